@@ -23,6 +23,12 @@ def run(ctx):
                          if not (a["label"] == "aCand" and f["j"] > 1)
                          and not (a["label"] == "sEmit" and f["mine"][a["proc"]] == [])]
                 beh.append({"id": len(beh), "pool": pool, "steps": steps, "free": False, "restart": len(beh) % 3 == 0})
+    # the ICE restart (second gathering) as a model of its own: every interleaving of the second gathering's
+    # callbacks with the flush of the restarting offer; a Gather() that does not re-arm gatheringDone is refuted
+    for pool in (0, 1):
+        vlib.tlc_model(ctx, "GathererRestart", "GathererRestart_current_p%d" % pool, workers=1)
+        r = vlib.tlc_expect_violation(ctx, "GathererRestart", "GathererRestart_stale_p%d" % pool, workers=1)
+        ctx.cov.setdefault("restart_stale_model", {})["pool%d" % pool] = "counterexample" if r.rc == 12 else "rc=%s" % r.rc
     nsched = len(beh)
     for j in range(60 if quick else 1500):
         beh.append({"id": len(beh), "pool": j % 2, "steps": [], "free": True, "restart": j % 2 == 0})
